@@ -924,15 +924,18 @@ def run_once(reqs, chooser, lines=None, monitor=True):
 def explore(check, reqs, lines, bound, budget, monitor=True):
     """iterative context bounding: every schedule with at most `bound` preemptions (a
     preemption = switching away from a thread that could have continued), as far as the
-    budget goes; beyond the budget the frontier is sampled with check.rng"""
-    frontier = [([], 0)]
+    budget goes; beyond the budget the frontier is sampled with check.rng.  A frontier entry
+    is (decisions of the parent run, index, alternative thread, preemptions used): the prefix
+    is only materialised when the entry is taken."""
+    frontier = [(None, 0, None, 0)]
     seen = set()
     n = 0
     while frontier and n < budget:
         if len(frontier) > 1 and n > 0:
             j = check.rng.randrange(len(frontier))
             frontier[j], frontier[-1] = frontier[-1], frontier[j]
-        prefix, used = frontier.pop()
+        parent, i, alt, used = frontier.pop()
+        prefix = [] if parent is None else parent[:i] + [alt]
         key = tuple(prefix)
         if key in seen:
             continue
@@ -943,14 +946,22 @@ def explore(check, reqs, lines, bound, budget, monitor=True):
         yield r
         dec = r['decisions']
         chosen = [d[1] for d in dec]
+        cand = []
         for i in range(len(prefix), len(dec)):
             en, ch, cur, kind = dec[i]
+            if len(en) < 2:
+                continue
+            cost = 1 if cur in en else 0
+            if used + cost > bound:
+                continue
             for alt in en:
-                if alt == ch:
-                    continue
-                cost = 1 if cur in en else 0
-                if used + cost <= bound:
-                    frontier.append((chosen[:i] + [alt], used + cost))
+                if alt != ch:
+                    cand.append((chosen, i, alt, used + cost))
+        if len(cand) > MAX_BRANCH:          # very long runs: a seeded sample of the branch points
+            cand = check.rng.sample(cand, MAX_BRANCH)
+        frontier.extend(cand)
+
+MAX_BRANCH = 400
 
 def lines_name(lines):
     return None if lines is None else ('ALL' if lines == 'ALL' else 'SHARED')
@@ -1120,7 +1131,7 @@ def unit_scenarios(check, tier):
         [['sort', [2, 2]], ['sort', [2]]],
         [['sort', [3, 4]], ['sort', [4, 3]], ['attrs', [3]]],
     ]
-    n = 4 if tier == 'quick' else 20
+    n = 4 if tier == 'quick' else 16
     for _ in range(n):
         k = rng.randint(2, 4)
         s = []
@@ -1193,7 +1204,7 @@ def http_scenarios(check, tier):
         [['jbox', 'ann', 2], ['jbox', 'bob', 1]],
         [['jsum', 'ann', [1, 2]], ['jsq', -3], ['jbadtype', 4]],
     ]
-    n = 4 if tier == 'quick' else 20
+    n = 4 if tier == 'quick' else 16
     for i in range(n):
         k = rng.randint(2, 4)
         if i % 4 == 2:      # JSON application only
@@ -1318,7 +1329,7 @@ def run(check):
         bound = 2 if len(reqs) <= 2 else 1
         if not quick:
             bound += 1
-        budget = (110 if len(reqs) <= 2 else 60) if quick else (400 if len(reqs) <= 2 else 250)
+        budget = (150 if len(reqs) <= 2 else 80) if quick else (300 if len(reqs) <= 2 else 200)
         for r in explore(check, reqs, None, bound, budget):
             account(r, 'access_level')
             handle(check, r, cases)
@@ -1326,7 +1337,7 @@ def run(check):
     phase('access_level')
     # 2. line-granularity exploration (sys.settrace line+return events inside the shared-state code)
     for reqs in unit_scenarios(check, tier)[:N_FIXED_UNIT]:
-        budget = 30 if quick else 300
+        budget = 40 if quick else 200
         for r in explore(check, reqs, LINE_FUNCS_SHARED, 1 if quick else 2, budget):
             account(r, 'line_level')
             handle(check, r, cases)
@@ -1334,12 +1345,12 @@ def run(check):
     phase('line_level')
     # 3. end-to-end WSGI requests (SOAP calls, faults, validation failures, ?wsdl) at line granularity
     for reqs in http_scenarios(check, tier):
-        budget = 18 if quick else 100
+        budget = 28 if quick else 60
         for r in explore(check, reqs, LINE_FUNCS_SHARED, 1 if quick else 2, budget):
             account(r, 'http')
             handle(check, r, cases)
         # randomized stress: switch points at EVERY line of every spyne/ function
-        for _ in range(4 if quick else 30):
+        for _ in range(6 if quick else 20):
             r = run_once(reqs, RandomChooser(check.rng, check.rng.choice([0.002, 0.01, 0.05])), 'ALL')
             r['lines'] = 'ALL'
             account(r, 'random_all_lines')
